@@ -145,6 +145,8 @@ func (n *RaftNode) AddBulk(bulk [][]byte) ([]*balloon.Snapshot, error) {
 // request a membership proof against a certain balloon version.
 func (n *RaftNode) QueryDigestMembershipConsistency(keyDigest hashing.Digest, version uint64) (*balloon.MembershipProof, error) {
 	n.metrics.DigestMembershipQueries.Inc()
+	n.applyLock.RLock()
+	defer n.applyLock.RUnlock()
 	return n.balloon.QueryDigestMembershipConsistency(keyDigest, version)
 }
 
@@ -152,6 +154,8 @@ func (n *RaftNode) QueryDigestMembershipConsistency(keyDigest hashing.Digest, ve
 // membership proof against a certain balloon version.
 func (n *RaftNode) QueryMembershipConsistency(event []byte, version uint64) (*balloon.MembershipProof, error) {
 	n.metrics.MembershipQueries.Inc()
+	n.applyLock.RLock()
+	defer n.applyLock.RUnlock()
 	return n.balloon.QueryMembershipConsistency(event, version)
 }
 
@@ -159,6 +163,8 @@ func (n *RaftNode) QueryMembershipConsistency(event []byte, version uint64) (*ba
 // membership proof against the last balloon version.
 func (n *RaftNode) QueryDigestMembership(keyDigest hashing.Digest) (*balloon.MembershipProof, error) {
 	n.metrics.DigestMembershipQueries.Inc()
+	n.applyLock.RLock()
+	defer n.applyLock.RUnlock()
 	return n.balloon.QueryDigestMembership(keyDigest)
 }
 
@@ -166,12 +172,16 @@ func (n *RaftNode) QueryDigestMembership(keyDigest hashing.Digest) (*balloon.Mem
 // against the last balloon version.
 func (n *RaftNode) QueryMembership(event []byte) (*balloon.MembershipProof, error) {
 	n.metrics.MembershipQueries.Inc()
+	n.applyLock.RLock()
+	defer n.applyLock.RUnlock()
 	return n.balloon.QueryMembership(event)
 }
 
 // QueryConsistency acts as a passthrough when requesting an incremental proof.
 func (n *RaftNode) QueryConsistency(start, end uint64) (*balloon.IncrementalProof, error) {
 	n.metrics.IncrementalQueries.Inc()
+	n.applyLock.RLock()
+	defer n.applyLock.RUnlock()
 	return n.balloon.QueryConsistency(start, end)
 }
 
@@ -235,6 +245,9 @@ func (n *RaftNode) Restore(rc io.ReadCloser) error {
 		return err
 	}
 
+	n.applyLock.Lock()
+	defer n.applyLock.Unlock()
+
 	if n.raft != nil { // we are not restoring on startup
 
 		// we make a remote call to fetch the snapshot
@@ -261,6 +274,12 @@ func (n *RaftNode) Restore(rc io.ReadCloser) error {
 }
 
 func (n *RaftNode) applyAdd(hashes []hashing.Digest, state *fsmState) *fsmResponse {
+
+	// queries must not run between the update of the trees in memory and the
+	// arrival of the mutations at the store: what they would read is neither the
+	// state before nor the state after this insertion
+	n.applyLock.Lock()
+	defer n.applyLock.Unlock()
 
 	resp := new(fsmResponse)
 	snapshotBulk, mutations, err := n.balloon.AddBulk(hashes)
